@@ -156,6 +156,20 @@ def run(tier, seed):
                     model_ops=[list(o) for o in rows[2]["ops"]]))
     chk.sample(dict(f7_witness=fq.describe(rows[0]["case"]), outcome=rows[0]["impl"].get("outcome")))
 
+    # the Coq class predicate of F7 agrees with the one used above to recognise the known finding
+    sample = [row for row in rows if "log" in row["impl"]][:(400 if thorough else 80)]
+    cls = vlib.coq_eval("c08u", fq.IMPORTS + ["Proofs.FutureQueue"], [
+        "(if uniform_b " + coq_list([
+            f"mkitem {i} {it[0]} " + ("None" if it[1] is None else f"(Some {it[1]})")
+            for i, it in enumerate(row["case"]["items"])]) + " then 1 else 0)" for row in sample])
+    for row, u in zip(sample, cls):
+        chk.count("class_predicate_cases")
+        if bool(u) == fq.non_uniform_groups(row["case"]):
+            chk.violation("broken-obligation", "corr:f7-class",
+                          dict(input=fq.describe(row["case"]), model_uniform=u,
+                               python_non_uniform=fq.non_uniform_groups(row["case"])), no_input=True)
+            break
+
     wiring(chk, binary, r, thorough)
     validated += fq.run_runner_scenarios(chk, binary, r, thorough, TAGS, PROP, with_f7=True)
 
